@@ -65,6 +65,9 @@ var selAlphabet = []selSpec{
 	{"kind=Gadget,app=x", corev1alpha1.ProbeSelector{Kind: kindSel("Gadget"), Selector: labelSel("x")}, "mismatch", "x"},
 	{"app=x", corev1alpha1.ProbeSelector{Selector: labelSel("x")}, "", "x"},
 	{"all", corev1alpha1.ProbeSelector{}, "", ""},
+	// selectors made of negative requirements only: they match objects without any labels
+	{"kind=Widget,!tier", corev1alpha1.ProbeSelector{Kind: kindSel("Widget"), Selector: &metav1.LabelSelector{MatchExpressions: []metav1.LabelSelectorRequirement{{Key: "tier", Operator: metav1.LabelSelectorOpDoesNotExist}}}}, "match", "!tier"},
+	{"app notin (y)", corev1alpha1.ProbeSelector{Selector: &metav1.LabelSelector{MatchExpressions: []metav1.LabelSelectorRequirement{{Key: "app", Operator: metav1.LabelSelectorOpNotIn, Values: []string{"y"}}}}}, "", "notin-y"},
 }
 
 // ---- object alphabet ----
@@ -261,8 +264,18 @@ func selected(s selSpec, o *unstructured.Unstructured) bool {
 	if s.Kind == "mismatch" {
 		return false
 	}
-	if s.Label != "" {
-		l := o.GetLabels()
+	l := o.GetLabels()
+	switch s.Label {
+	case "":
+	case "!tier":
+		if _, has := l["tier"]; has {
+			return false
+		}
+	case "notin-y":
+		if l["app"] == "y" {
+			return false
+		}
+	default:
 		if l["app"] != s.Label {
 			return false
 		}
@@ -365,7 +378,7 @@ func run(o checks.Opts) *report.Report {
 	rep.Bounds["objects"] = len(objs)
 	rep.Bounds["first_probe_variants"] = len(first)
 	rep.Bounds["second_probe_variants"] = len(second)
-	rep.Rule = "probe lists: [] , [p] and [p,q] with p from 6 selectors x (<=2 probes from 10 kinds incl. a failing CEL rule with an empty message and fieldsEqual over two absent fields), q from selectors x (<=1 probe); objects: generation x labels x status shape (absent, {}, scalar, observedGeneration absent/=/!=/string/float x 14 conditions shapes x fieldsEqual operand absent/equal/different); every list is parsed by the real internal/probing.Parse and probed on every object; distinct = (success, #messages, undecided)"
+	rep.Rule = "probe lists: [] , [p] and [p,q] with p from 8 selectors (kind, label equality, none, negative-only requirements) x (<=2 probes from 10 kinds incl. a failing CEL rule with an empty message and fieldsEqual over two absent fields), q from selectors x (<=1 probe); objects: generation x labels x status shape (absent, {}, scalar, observedGeneration absent/=/!=/string/float x 14 conditions shapes x fieldsEqual operand absent/equal/different); every list is parsed by the real internal/probing.Parse and probed on every object; distinct = (success, #messages, undecided)"
 	var lists [][]osProbe
 	lists = append(lists, nil)
 	for _, p := range first {
